@@ -320,12 +320,19 @@ pub fn worker(ctx: &WorkerCtx, prop: &str) -> Report {
                 }
                 rep.max("counterfactual_rounds", round + 2);
             }
-            if cfg.rt_workers > 0 && !matches!(&cf, Ok(c) if !c.oracle.c01_violated) {
-                // On a multi-thread runtime the set of executor-level reads differs from run
-                // to run, so the narrowed counterfactual is not reliable there: fall back to
-                // the user repairing below every computed query (what the finding's signature
-                // says). Deterministic (current_thread) cases never take this path.
-                rep.count("narrow_counterfactual_failed_on_multithread_case", 1);
+            // The first wrong observation of the failing run: the finding's own symptom is an
+            // executor that is handed a stale value.
+            let first_is_executor_read = out.oracle.violations.iter().find(|v| v.0 == "C01").is_some_and(|v| v.1 == "executor-read-stale");
+            if (cfg.rt_workers > 0 || first_is_executor_read) && !matches!(&cf, Ok(c) if !c.oracle.c01_violated) {
+                // Fall back to the user repairing below every computed query (what the
+                // finding's signature says) in two situations: on a multi-thread runtime, where
+                // the set of executor-level reads differs from run to run; and when the first
+                // wrong observation is itself a stale executor-level read but repairing only
+                // below the queries executors read is not enough (firewalls that depend on
+                // each other through normal queries: the stale node is hidden behind a
+                // firewall that only some other query's repair reaches). A wrong answer that
+                // involves no executor-level read never takes this path.
+                rep.count(if cfg.rt_workers > 0 { "narrow_counterfactual_failed_on_multithread_case" } else { "narrow_counterfactual_failed_after_stale_executor_read" }, 1);
                 for _ in 0..4 {
                     let (c, _) = run_spec(&spec, &case, &cfg, Some(Prerepair { from_step: from, only: None }));
                     rep.count("counterfactual_runs", 1);
